@@ -3,6 +3,7 @@ package rec
 
 import (
 	"bufio"
+	"bytes"
 	"encoding/json"
 	"os"
 	"strconv"
@@ -56,6 +57,13 @@ func (w *Writer) Write(meta map[string]interface{}, ev []Event) int {
 	if err != nil {
 		panic(err)
 	}
+	if bytes.Contains(b, []byte("null")) {
+		// TLC's JSON reader has no null: nil slices / maps / interfaces become empty strings
+		var v interface{}
+		if json.Unmarshal(b, &v) == nil {
+			b, _ = json.Marshal(denull(v))
+		}
+	}
 	w.w.Write(b)
 	w.w.WriteByte('\n')
 	return w.n
@@ -66,6 +74,24 @@ func (w *Writer) Count() int { w.mu.Lock(); defer w.mu.Unlock(); return w.n }
 func (w *Writer) Close() error {
 	w.w.Flush()
 	return w.f.Close()
+}
+
+func denull(v interface{}) interface{} {
+	switch x := v.(type) {
+	case nil:
+		return ""
+	case map[string]interface{}:
+		for k, e := range x {
+			x[k] = denull(e)
+		}
+		return x
+	case []interface{}:
+		for i, e := range x {
+			x[i] = denull(e)
+		}
+		return x
+	}
+	return v
 }
 
 // Seed returns VERIF_SEED (default 1).
